@@ -905,8 +905,11 @@ fn one_case(d: &mut Draw, fast: &[Config], cc: &[Config]) -> Outcome {
     // the recorded reproducer shows it on every run
     if fst_time_table_defect(&predicted_times(&ws, proto)) {
         EXCLUDED_FST_TIME_TABLE.fetch_add(1, Ordering::Relaxed);
+        let mut k = 0;
         while fst_time_table_defect(&predicted_times(&ws, proto)) {
-            ws.dt[0].0 += 1;
+            let n = ws.dt.len();
+            ws.dt[k % n].0 += 1 + (k / n) as u64;
+            k += 1;
         }
     }
     let text = print_design(&g.design);
